@@ -10,6 +10,7 @@
 #include <fcntl.h>
 #include <malloc.h>
 #include <pthread.h>
+#include <signal.h>
 #include <stdio.h>
 #include <stdlib.h>
 #include <string.h>
@@ -25,12 +26,20 @@ void lifegate_release(unsigned) __attribute__((weak));
 
 static void mark(const char *l, int n) { char b[64]; int k = snprintf(b, sizeof b, "mark\t%s\t%d\n", l, n); (void)!write(verif_expect.rec_fd, b, (size_t)k); (void) mallinfo2(); }
 
+static unsigned long long maskbits(void) { sigset_t s; pthread_sigmask(SIG_SETMASK, NULL, &s); unsigned long long m = 0; for (int i = 1; i < 64; i++) if (sigismember(&s, i)) m |= 1ULL << i; return m; }
+static int ROUND;
+/* every worker has its own signal mask (SIGUSR1 / SIGUSR2 / SIGWINCH blocked) and must get it back:   mask<TAB>round<TAB>id<TAB>before<TAB>after */
 static void *worker(void *p) {
     int id = (int)(long) p;
+    static const int sig[3] = { SIGUSR1, SIGUSR2, SIGWINCH };
+    sigset_t s; sigemptyset(&s); sigaddset(&s, sig[id % 3]); pthread_sigmask(SIG_SETMASK, &s, NULL);
+    unsigned long long before = maskbits();
     lifegate_set_id(id);
     char a0[16]; snprintf(a0, sizeof a0, "T%d", id);
     char *argv[] = { a0, "arg", NULL };
     execve("/nonexistent/prog", argv, environ);
+    unsigned long long after = maskbits();
+    char b[96]; int k = snprintf(b, sizeof b, "mask\t%d\t%d\t%llx\t%llx\n", ROUND, id, before, after); (void)!write(verif_expect.rec_fd, b, (size_t) k);
     return NULL;
 }
 
@@ -46,6 +55,7 @@ int main(int argc, char **argv) {
     mark("warm", 0);
     for (int r = 1; r <= rounds; r++) {
         pthread_t th[3];
+        ROUND = r;
         lifegate_reset();
         for (int i = 0; i < 3; i++) { pthread_create(&th[i], NULL, worker, (void *)(long) i); lifegate_wait_arrived(i + 1); }
         if (!strcmp(order, "all")) { lifegate_release(7u); for (int i = 0; i < 3; i++) pthread_join(th[i], NULL); }
